@@ -1,7 +1,135 @@
-//! C11 (to be filled in)
+//! C11 — holes stay holes: sparse files are copied without materialising them
+
 use super::*;
-pub fn run(_ctx: &Ctx) -> Report {
-    let mut r = Report::new("model_checking", "not implemented");
-    r.machinery_errors.push("C11 not implemented yet".into());
-    r
+use crate::explore::Judge;
+use crate::scen::{seek_map, Content, Entry, Kind};
+use crate::util::join;
+
+const MIB: u64 = 1 << 20;
+
+pub fn judge(w: &Worker, scen: &Scenario, ex: &Exec) -> Judgement {
+    let exp = model::expect(scen);
+    let mut v = judge_exit0_tree(w, scen, ex, &exp, Level::Content);
+    if !exit0(ex) && !ex.res.outcome.is_hang() {
+        v.push(format!("valid sparse copy ends with {}", ex.res.outcome.short()));
+    }
+    if exit0(ex) {
+        let root = w.root(scen.fs);
+        for (src, dst) in exp.mapped.iter() {
+            let (sn, dn) = match (ex.snap.get(src), ex.snap.get(dst)) {
+                (Some(s), Some(d)) if s.kind == 'f' && d.kind == 'f' => (s, d),
+                _ => continue,
+            };
+            let content = match scen.tree.iter().find(|e| &e.path == src).and_then(|e| e.content()) {
+                Some(c) => c.clone(),
+                None => continue,
+            };
+            let nseg = content.segments().len() as u64;
+            let slack = 65536 * (nseg + 1);
+            if dn.blocks * 512 > sn.blocks * 512 + slack {
+                v.push(format!("{} allocates {} bytes, its source {} allocates {} (slack {}): holes were materialised", dst, dn.blocks * 512, src, sn.blocks * 512, slack));
+            }
+            // the destination's data map must lie inside the source's, rounded out to file-system blocks
+            let smap: Vec<(u64, u64)> = seek_map(&join(&root, &crate::util::unesc(src))).into_iter().map(|(a, b)| (a / 4096 * 4096, (b + 4095) / 4096 * 4096)).collect();
+            for (a, b) in seek_map(&join(&root, &crate::util::unesc(dst))) {
+                let mut pos = a;
+                while pos < b {
+                    match smap.iter().find(|(x, y)| *x <= pos && pos < *y) {
+                        Some((_, y)) => pos = *y,
+                        None => {
+                            v.push(format!("{} has data at offset {} where {} has a hole", dst, pos, src));
+                            break;
+                        }
+                    }
+                }
+            }
+        }
+    }
+    v.truncate(6);
+    simple_judge(v, ex, exit0(ex))
+}
+
+fn bsizes() -> Vec<(&'static str, Vec<&'static str>)> {
+    vec![("256K", vec!["--block-size", "256KB"]), ("1M", vec!["--block-size", "1MB"]), ("1.5M", vec!["--block-size", "1572864"]), ("4M", vec!["--block-size", "4MB"]), ("MAX", vec!["--no-progress"])]
+}
+
+fn mk(name: &str, c: Content, d: &str, w: &str, bflag: &[&str], prior_alloc: bool) -> Scenario {
+    let len = c.len();
+    let mut tree = vec![Entry::new("f", Kind::File(c))];
+    if prior_alloc {
+        tree.push(Entry::new("g", Kind::File(Content::Gen { len: len.max(4096), seed: 99 })));
+    }
+    let mut args: Vec<&str> = vec!["--driver", d, "-w", w];
+    args.extend_from_slice(bflag);
+    args.extend_from_slice(&["f", "g"]);
+    Scenario::new(name, tree, &args)
+}
+
+pub fn layout_scenarios(maxlen: usize, workers: &[&str]) -> Vec<Scenario> {
+    let mut v = vec![];
+    for units in c01::all_layouts(maxlen) {
+        let name: String = units.iter().map(|&b| if b { 'D' } else { 'H' }).collect();
+        for (bn, bflag) in bsizes() {
+            for d in drivers() {
+                for w in workers {
+                    for pa in [false, true] {
+                        let c = Content::Layout { unit: MIB, units: units.clone(), tail: 0, seed: 3 };
+                        v.push(mk(&format!("sparse-{}-B{}-{}-w{}-{}", name, bn, d, w, if pa { "overalloc" } else { "fresh" }), c, d, w, &bflag, pa));
+                    }
+                }
+            }
+        }
+    }
+    v
+}
+
+/// 4 KiB of data every `stride` bytes, `n` times (more than one FIEMAP page when n > 32)
+pub fn many_extents(n: usize, stride: u64) -> Content {
+    let per = (stride / 4096) as usize;
+    let mut units = vec![false; n * per];
+    for i in 0..n {
+        units[i * per] = true;
+    }
+    Content::Layout { unit: 4096, units, tail: 0, seed: 11 }
+}
+
+pub fn extent_scenarios(counts: &[usize], stride: u64) -> Vec<Scenario> {
+    let mut v = vec![];
+    for &n in counts {
+        for d in drivers() {
+            for (bn, bflag) in [("1M", vec!["--block-size", "1MB"]), ("MAX", vec!["--no-progress"])] {
+                v.push(mk(&format!("extents-{}-stride{}-B{}-{}", n, stride, bn, d), many_extents(n, stride), d, "4", &bflag, false));
+            }
+        }
+    }
+    v
+}
+
+pub fn run(ctx: &Ctx) -> Report {
+    crate::explore::SNAP_BEFORE.store(false, std::sync::atomic::Ordering::Relaxed);
+    let mut rep = Report::new(
+        "model_checking",
+        "every {Data,Hole} string up to a length bound in 1 MiB units x block sizes {256 KiB, 1 MiB, 1.5 MiB, 4 MiB, usize::MAX} x both drivers x workers x destination {fresh, existing and fully allocated}; files of 40+ extents (several FIEMAP pages); the all-hole file; hole-size scaling; executed by the real binary on ext4; oracle: bytes equal, destination st_blocks*512 <= source's + 64 KiB per data segment, destination SEEK_DATA/SEEK_HOLE map contained in the source's (rounded to blocks), allocation independent of hole size; non-trivial = exited 0, per distinct (scenario, trace)",
+    );
+    let j: Judge = &judge;
+    let q = ctx.quick();
+    let sc = layout_scenarios(if q { 5 } else { 6 }, if q { &["1", "4"] } else { &["1", "4", "16"] });
+    let n = sc.len();
+    let st = scen_batch(ctx, sc, &[Policy::P0], j);
+    rep.part("data/hole layouts in 1 MiB units", st, serde_json::json!({"scenarios": n, "max_units": if q { 5 } else { 6 }}));
+    let sc = extent_scenarios(if q { &[40] } else { &[31, 32, 33, 40, 64, 65, 100] }, MIB);
+    let st = scen_batch(ctx, sc, &[Policy::P0], j);
+    rep.part("many extents (4 KiB of data every 1 MiB)", st, serde_json::json!({"extent_counts": if q { vec![40] } else { vec![31, 32, 33, 40, 64, 65, 100] }}));
+    // hole-size scaling: the same data, holes x1, x8 (, x64): allocation must not change
+    let mut sc = vec![];
+    for (k, stride) in if q { vec![(1u64, MIB), (8, 8 * MIB)] } else { vec![(1u64, MIB), (8, 8 * MIB), (64, 64 * MIB)] } {
+        let _ = k;
+        for d in drivers() {
+            sc.push(mk(&format!("scaling-stride{}-{}", stride, d), many_extents(5, stride), d, "4", &["--block-size", "1MB"], false));
+        }
+    }
+    let st = scen_batch(ctx, sc, &[Policy::P0], j);
+    rep.part("hole-size scaling (5 x 4 KiB of data, holes of 1 / 8 / 64 MiB)", st, serde_json::json!({}));
+    rep.assumptions = vec!["ext4 sandbox: SEEK_HOLE and FIEMAP are real; st_blocks includes delayed allocation".into()];
+    rep
 }
